@@ -179,6 +179,20 @@ def run(ctx: Ctx) -> dict:
     extra["real_tree"] = {"countries": len(ev[0]["out"].get("iban", {}).get("k", [])),
                           "bank_entries": len(ev[0]["out"].get("bank", {}).get("v", []))}
     extra.update(overlay_follow_through(ctx))
+    # the load phase as it really happens at import: each registry file must be read in file-name
+    # order (spec/Schwifty.tla, phase "loading"), observed in fresh interpreters
+    import session
+    senv = ctx.frozen(banks=True)
+    rng2 = random.Random(ctx.seed + 1800)
+    sessions = session.run_sessions(ctx, senv, [session.mixed_ops(ctx, senv, rng2, 40 if ctx.quick else 400)
+                                                for _ in range(2 if ctx.quick else 8)], "c18")
+    loads = sum(1 for e in sessions[0] if e["op"] == "load.file")
+    if loads == 0:
+        raise MachineryError("session recorded no registry file reads")
+    for n, e, clause in session.validate_sessions(ctx, senv, sessions, "c18sess"):
+        if clause in session.LOAD_CLAUSES:
+            ctx.violate(clause, {"op": e.get("op"), "clause": clause}, {"session": n, "event": calls.describe_event(e)})
+    extra["import_file_reads_observed"] = loads
     ctx.samples = [{"op": "merge", "l": pairs[7][0], "r": pairs[7][1]},
                    {"op": "load", "files": [[n, d] for n, d in cfgs[-1]["files"]]},
                    {"op": "registry.dump", "countries": extra["real_tree"]["countries"]}]
